@@ -60,7 +60,7 @@ def run_harness(binary, test, env, timeout=1800):
     return p
 
 
-def exec_histories(binary, histories, wd, tag="t", shards=None):
+def exec_histories(binary, histories, wd, tag="t", shards=None, test="TestDrive"):
     """Execute histories on the real code; returns list of trace files (one per shard)."""
     shards = shards or min(NCPU, max(1, len(histories) // 20))
     inp = os.path.join(wd, f"{tag}.hist.ndjson")
@@ -72,7 +72,7 @@ def exec_histories(binary, histories, wd, tag="t", shards=None):
 
     def one(i):
         out = os.path.join(wd, f"{tag}.trace.{i}.ndjson")
-        p = run_harness(binary, "TestDrive", {"VERIF_IN": inp, "VERIF_OUT": out, "VERIF_SHARD": f"{i}/{shards}"})
+        p = run_harness(binary, test, {"VERIF_IN": inp, "VERIF_OUT": out, "VERIF_SHARD": f"{i}/{shards}"})
         if p.returncode != 0 or not os.path.exists(out):
             raise Indeterminate(f"harness driver failed (shard {i}):\n{p.stdout[-3000:]}\n{p.stderr[-3000:]}")
         return out
@@ -189,7 +189,8 @@ def gen_exhaustive(family, cfgs, bounds, wd, timeout=1800):
 
 def validate_traces(trace_files, wd, module="TraceGrants"):
     """Trace validation: one single-worker TLC per trace file, in parallel."""
-    cfg = "SPECIFICATION TSpec\nCHECK_DEADLOCK FALSE\nPOSTCONDITION Consumed\n"
+    spec = "SSpec" if module == "TraceSteps" else "TSpec"
+    cfg = f"SPECIFICATION {spec}\nCHECK_DEADLOCK FALSE\nPOSTCONDITION Consumed\n"
 
     def one(tf):
         sub = tf + ".tlc"
@@ -357,3 +358,43 @@ def write_evidence(prop, tier, seed, level, coverage, wall, violations, assumpti
     with open(os.path.join(VERIF, "evidence", prop + ".json"), "w") as f:
         json.dump(ev, f, indent=1, sort_keys=True)
     return ev
+
+
+# ---------------------------------------------------------------------------- Steps (C15 C18 C19)
+def steps_cfg(scenarios, maxfaults, kinds, invariants, emit=False, view=True):
+    lines = ["SPECIFICATION Spec", "CONSTANTS", f"  Scenarios <- {scenarios}", f"  MaxFaults = {maxfaults}",
+             f"  Kinds <- {kinds}", f"  Emit = {'TRUE' if emit else 'FALSE'}"]
+    if invariants:
+        lines.append("INVARIANTS " + " ".join(invariants))
+    if view:
+        lines.append("VIEW View")
+    lines.append("CHECK_DEADLOCK FALSE")
+    return "\n".join(lines) + "\n"
+
+
+def model_check_steps(scenarios, maxfaults, kinds, invariants, wd, workers=8, timeout=3000, module="MCSteps"):
+    t0 = time.time()
+    rc, out = tlc(wd, module, steps_cfg(scenarios, maxfaults, kinds, invariants), ["-workers", str(workers)], heap="12g",
+                  timeout=timeout, cfg_name=f"mcs_{scenarios}_{maxfaults}.cfg")
+    res = parse_mc(out)
+    res["wall_s"] = round(time.time() - t0, 1)
+    res["bounds"] = {"Scenarios": scenarios, "MaxFaults": maxfaults, "Kinds": kinds, "invariants": invariants}
+    if not res["ok"]:
+        tail = "\n".join(l for l in out.splitlines() if not l.startswith(("Linting", "Semantic", "Parsing")))[-6000:]
+        raise Indeterminate(f"design-level model check of {scenarios} did not pass (specification bug, not a verdict about the code):\n{tail}")
+    log(f"[mc] {module} {scenarios} faults<={maxfaults}: {res['generated']} states generated, {res['distinct']} distinct, depth {res['depth']}, {res['wall_s']}s")
+    return res
+
+
+def gen_steps(scenarios, maxfaults, kinds, wd, mode="bfs", num=200, depth=60, seed=1, timeout=3000, module="MCSteps"):
+    """Complete schedules (all interleavings / fault placements) or a simulated sample."""
+    cfg = steps_cfg(scenarios, maxfaults, kinds, ["EmitHist"], emit=True, view=False)
+    if mode == "bfs":
+        args = ["-workers", str(NCPU)]
+    else:
+        args = ["-workers", "4", "-simulate", f"num={max(2, num // 4)}", "-depth", str(depth), "-seed", str(seed)]
+    rc, out = tlc(wd, module, cfg, args, heap="12g", timeout=timeout, cfg_name=f"gens_{scenarios}_{maxfaults}_{mode}.cfg")
+    hs = parse_hist(out)
+    if not hs:
+        raise Indeterminate("TLC produced no schedules:\n" + out[-3000:])
+    return hs, parse_mc(out)
